@@ -12,15 +12,16 @@ import re
 
 from vcheck import Machinery, pmap
 
-RECORDS = [('x', 1, 0, 'p'), ('longer text', 22, 1, 'qq'), ('', 333, 10, 'a longer one'), ('mid', 4, 1, ''), ('z', 5, 7, 'rrr'),
+_RECORDS6 = [('x', 1, 0, 'p'), ('longer text', 22, 1, 'qq'), ('', 333, 10, 'a longer one'), ('mid', 4, 1, ''), ('z', 5, 7, 'rrr'),
            ('zz', 66, 0, 's')]
+RECORDS = _RECORDS6 + [('r%d' % i, i, (0, 1, 10, 7)[i % 4], 'v%d' % (i % 7)) for i in range(54)]
 FIELDS = ['a', 'b', 'e', 'c(x)']
 
 
-def _cfg(maxcols, maxact, small, emit):
-    return ('SPECIFICATION Spec\nCHECK_DEADLOCK FALSE\nCONSTANTS\n  MaxCols = %d\n  MaxActions = %d\n  Small = %s\n  Emit = %s\n'
+def _cfg(maxcols, maxact, small, emit, tiny=False):
+    return ('SPECIFICATION Spec\nCHECK_DEADLOCK FALSE\nCONSTANTS\n  MaxCols = %d\n  MaxActions = %d\n  Small = %s\n  Emit = %s\n  Tiny = %s\n'
             'INVARIANT ShapeKeepsColumns\nINVARIANT LimitsOmittedOnlyWhenHarmless\n' % (
-                maxcols, maxact, 'TRUE' if small else 'FALSE', 'TRUE' if emit else 'FALSE'))
+                maxcols, maxact, 'TRUE' if small else 'FALSE', 'TRUE' if emit else 'FALSE', 'TRUE' if tiny else 'FALSE'))
 
 
 def col_str(c):
@@ -135,6 +136,9 @@ def replay_history(job):
                 cols = st['cols']
                 t.fmt = ','.join(col_str(c) for c in cols) + (';' if n % 2 else '')
                 frozen, skipped = False, 'unknown'
+            elif op == 'removecols':
+                cols = [c for c in cols if c['f'] != st['f']]
+                t.remove_columns([st['f']])
             elif op == 'setlimits':
                 limits = st['limits']
                 t.fmt = ';' + lim_str(limits)
@@ -156,7 +160,7 @@ def replay_history(job):
 
 
 def run(ctx):
-    ctx.assumptions += ['fields a (str), b (int), e (enum), c(x) (str, a name with parentheses); 6 fixed records, tables of 2, 4 and 6 of them; the constructor is '
+    ctx.assumptions += ['fields a (str), b (int), e (enum), c(x) (str, a name with parentheses); 6 fixed records, tables of 2, 4, 6 and 60 records; the constructor is '
                         'given the same fields / fields_types as the original table',
                         'rendering a deep copy is used to observe a table without printing the table itself']
     ctx.tlc('ppobj/PPTableFmt.tla', _cfg(1, 2, True, False), workers=16, timeout=3000)
@@ -170,7 +174,13 @@ def run(ctx):
                 depth=9, timeout=1200)
     sim = [h for h in r.printed if isinstance(h, dict)]
     hists += sim
-    jobs = [(h, (2, 4, 6)[k % 3]) for k, h in enumerate(hists)]
+    # all life cycles of 2 actions of two-column tables (plain ranged columns) incl. remove_columns
+    r = ctx.tlc('ppobj/PPTableFmt.tla', _cfg(2, 2, True, True, tiny=True), workers=16, timeout=3000)
+    tiny = [h for h in r.printed if isinstance(h, dict)]
+    ctx.extra['histories_two_columns_exhaustive'] = len(tiny)
+    hists += tiny
+    # tables of 2, 4, 6 records, and of 60 (more body lines than the default limits 30:20 show)
+    jobs = [(h, (2, 4, 6, 60)[k % 4] if k % 8 != 7 else 60) for k, h in enumerate(hists)]
     res = pmap(replay_history, jobs)
     ndrift = 0
     for job, (prob, drift, tags) in zip(jobs, res):
